@@ -385,3 +385,89 @@ def diff_cfg(expected, actual):
             out.append("%s expected %s got %s" % (REG_NAMES[reg], e.hex(), a.hex()))
         i += w
     return out
+
+
+# ---------------------------------------------------------------------------
+# rf24_lite: documented reductions (docs/troubleshooting.rst "About the lite version"):
+# dynamic_payloads and payload_length are global, auto-ack and CRC16 are fixed, no `with`.
+def lite_initial():
+    s = State()
+    s.r[0] = 0x0E  # the lite constructor leaves the radio powered up in TX role
+    return s
+
+
+def alternatives_lite(s, op):
+    name = op[0]
+    args = [unhex(a) for a in op[1:]]
+    n = s.copy()
+    r = n.r
+    same = [(None, n)]
+
+    def err(e):
+        return [(e, s.copy())]
+
+    if name in ("channel", "address_length", "ard", "arc", "interrupt_config", "power", "noop"):
+        return alternatives(s, op)
+    if name == "data_rate":
+        if args[0] not in (1, 2, 250):
+            return err("ValueError")
+        return alternatives(s, op)
+    if name == "pa_level":
+        if args[0] not in PA_BITS or isinstance(args[0], bool):
+            return err("ValueError")
+        r[6] = (r[6] & 0xF8) | (PA_BITS[args[0]] << 1) | 1
+        return same
+    if name == "dynamic_payloads":
+        en = bool(args[0])
+        r[0x1D] = (r[0x1D] & 3) | (4 if en else 0)
+        r[0x1C] = 0x3F if en else 0
+        return same
+    if name == "payload_length":
+        for p in range(6):
+            r[0x11 + p] = max(1, min(32, args[0]))
+        return same
+    if name == "ack":
+        if args[0]:
+            r[0x1C] = 0x3F
+            r[0x1D] |= 4 | 2
+        else:
+            r[0x1D] &= 5
+        return same
+    if name == "listen":
+        if args[0]:
+            r[0] |= 3
+            n.ce = True
+            if n.user0 is not None:
+                n.a[0x0A][: len(n.user0)] = n.user0
+            else:
+                r[2] &= ~1
+        else:
+            r[0] = (r[0] | 2) & ~1
+            n.ce = False
+            r[2] |= 1
+        return same
+    if name == "open_rx_pipe":
+        p, addr = args
+        if not 0 <= p <= 5:
+            return err("ValueError")
+        if not addr:
+            return err("ValueError")
+        return alternatives(s, op)
+    if name == "close_rx_pipe":
+        p = args[0]
+        if not 0 <= p <= 5:
+            return err("ValueError")
+        r[2] &= ~(1 << p)
+        if p == 0:
+            n.user0 = None
+        return same
+    if name == "open_tx_pipe":
+        addr = args[0]
+        n.a[0x10][: len(addr)] = addr
+        n.a[0x0A][:] = n.a[0x10]
+        if not r[0] & 1 and not r[2] & 1:
+            m2 = n.copy()
+            m2.r[2] |= 1
+            return [(None, m2), (None, n)]
+        return same
+    raise KeyError(name)
